@@ -12,6 +12,11 @@ ID = "C02"
 MODULE = "DaliVerif.Props.C02"
 EXES = ["m_cmd"]
 GEN = True
+# tie by translation (DESIGN.md II.8): the frame-assembling constructors of 276 command classes and dali/address.py
+TIE_MODULES = ["DaliVerif.Tie.Command", "DaliVerif.Tie.Address"]
+TIE_THEOREMS = ["Tie.Command.%s" % n for n in
+                ("stdNoParam_tie", "stdParam_tie", "dapc_tie", "devStd_tie", "devInst_tie",
+                 "std_rows_traced", "dev_rows_traced", "inst_rows_traced")]
 THEOREMS = ["tables_ok2", "decode_construct", "decode_construct_gen", "render_preserved", "no_shared_frame",
             "std_param_rejected", "std_arity_rejected", "destination_rejected", "wrong_kind_rejected",
             "byte_param_rejected", "slice_write_rejects", "std_accepted_is_legal", "dapc_accepted_is_legal",
@@ -180,7 +185,7 @@ def correspond(ctx, corr):
         "sampled otherwise) x instance bytes (all 256 on sampled addresses); events x 5 schemes x field and data "
         "values; malformed stream (-1, max+1, 1.5, None, 'x', wrong-kind address, wrong arity) at every argument "
         "position. non-trivial = distinct (family, outcome class)")
-    classes = sorted(command.Command._commands, key=qn)
+    classes = sorted(__import__('gen._registry', fromlist=['x']).all_commands()[0], key=qn)
     fam_count = {}
     for c in classes:
         fam = family(c)
